@@ -99,6 +99,7 @@ def check_cc(ctx, X, tau_max, kind, terms=None):
     key = {"data": X.tolist(), "tau_max": tau_max}
     ctx.count(key, nontrivial=T >= 5 and N >= 2)
     ctx.stat("cc:" + kind)
+    ctx.sample({"T": T, "N": N, "tau_max": tau_max, "data": kind})
     ctx.stat("tau_max=%d" % min(tau_max, 5))
     tags = {"data": kind, "tau_max_over_127": tau_max > 127}
     ca = CouplingAnalysis(X.copy(), silence_level=3)
